@@ -16,7 +16,7 @@ import (
 )
 
 var enumAlphabet = []string{"", " ", "a", "A", "b", "foo", "Foo", "FOO", "foo1", "Foo1", "1", "1a", "2", "-", "a-b", "a_b", "a b", "a.b", "func", "type", "nil", "true", "string",
-	"é", "日本", "a\"b", "a\\tb", "a\tb", "line\nbreak", "$", "+1", "-1", "x.y", "a+b", "&", "A B"}
+	"empty", "Empty", "_empty", "_1", "_12", "é", "日本", "a\"b", "a\\tb", "a\tb", "line\nbreak", "$", "+1", "-1", "x.y", "a+b", "&", "A B"}
 
 func coqTable(m map[string]string) string {
 	ks := make([]string, 0, len(m))
@@ -79,6 +79,39 @@ func enumGuard(names []string) (stage2 []string, ok2, ok3 bool) {
 	return
 }
 
+// emptyMeetsEmpty: the list holds the empty string and another value whose name sanitises to Empty (the
+// old-enum-conflicts arm names the empty value Empty whatever SanitizeEnumNames called it).
+func emptyMeetsEmpty(names, vals []string) bool {
+	hasEmpty, other := false, false
+	for i, v := range vals {
+		n := v
+		if i < len(names) {
+			n = names[i]
+		}
+		if v == "" {
+			hasEmpty = true
+		} else if codegen.SanitizeGoIdentity(codegen.SchemaNameToTypeName(n)) == "Empty" {
+			other = true
+		}
+	}
+	return hasEmpty && other
+}
+
+// nameChainInvalid: some name goes through SchemaNameToTypeName, SanitizeGoIdentity and SchemaNameToTypeName again to
+// the empty string or to a text starting with a digit (an underscore hiding a leading digit: _1, _12).
+func nameChainInvalid(names []string) bool {
+	for _, n := range names {
+		if n == "" {
+			continue
+		}
+		f := codegen.SchemaNameToTypeName(codegen.SanitizeGoIdentity(codegen.SchemaNameToTypeName(n)))
+		if f == "" || (f[0] >= '0' && f[0] <= '9') {
+			return true
+		}
+	}
+	return false
+}
+
 func runC11(r *Report, rng *rand.Rand, thorough bool) {
 	// make sure the package-level normaliser is the default one
 	_, _ = generate([]byte(`{"openapi":"3.0.3","info":{"title":"t","version":"1"},"paths":{}}`), codegen.Configuration{PackageName: "x", Generate: codegen.GenerateOptions{Models: true}})
@@ -91,7 +124,8 @@ func runC11(r *Report, rng *rand.Rand, thorough bool) {
 		values []string
 	}
 	var lists [][]string
-	fixed := [][]string{{"foo1", "Foo", "foo"}, {"", " "}, {"a-b", "a_b", "a b"}, {"1", "1a", "-1", "+1"}, {"func", "type", "nil"}, {"a\"b", "a\\tb", "line\nbreak"}, {"a", "a", "b"}}
+	fixed := [][]string{{"foo1", "Foo", "foo"}, {"", " "}, {"a-b", "a_b", "a b"}, {"1", "1a", "-1", "+1"}, {"func", "type", "nil"}, {"a\"b", "a\\tb", "line\nbreak"}, {"a", "a", "b"},
+		{"empty", ""}, {"Empty", "", "x"}, {"_empty", "on", ""}, {"_1", "b"}, {"_12", "b"}}
 	lists = append(lists, fixed...)
 	for len(lists) < nLists {
 		n := 1 + rng.Intn(5)
@@ -153,10 +187,12 @@ func runC11(r *Report, rng *rand.Rand, thorough bool) {
 		nDocs = 600
 	}
 	positions := []string{"component", "property", "parameter", "array-item", "request-body", "response"}
+	varNamePool := []string{"Empty", "None", "First", "first", "Second", "A", "B", "a-b", "Unset", "_1"}
+	nDocs += 3 * len(fixed) // every fixed list under every option
 	for d := 0; d < nDocs; d++ {
 		vals := lists[rng.Intn(len(lists))]
-		if d < len(fixed) {
-			vals = fixed[d]
+		if d < 3*len(fixed) {
+			vals = fixed[d%len(fixed)]
 		}
 		pos := positions[d%len(positions)]
 		base := []string{"string", "string", "string", "integer"}[rng.Intn(4)]
@@ -179,6 +215,28 @@ func runC11(r *Report, rng *rand.Rand, thorough bool) {
 			}
 		}
 		enumSchema := map[string]any{"type": base, "enum": enumVals}
+		// names given by the document (x-enum-varnames / x-enumNames): distinct names for distinct values
+		names := specVals
+		varKey := ""
+		if base == "string" && d >= 3*len(fixed) && rng.Intn(4) == 0 {
+			seenV := map[string]bool{}
+			enumVals, specVals = nil, nil
+			for _, v := range vals {
+				if !seenV[v] {
+					seenV[v] = true
+					enumVals = append(enumVals, v)
+					specVals = append(specVals, v)
+				}
+			}
+			perm := rng.Perm(len(varNamePool))
+			names = nil
+			for i := range specVals {
+				names = append(names, varNamePool[perm[i]])
+			}
+			varKey = []string{"x-enum-varnames", "x-enumNames"}[rng.Intn(2)]
+			enumSchema = map[string]any{"type": base, "enum": enumVals, varKey: names}
+			r.Dist["names_from="+varKey]++
+		}
 		comps := map[string]any{"Other": map[string]any{"type": "object", "properties": map[string]any{"x": map[string]any{"type": "string"}}}}
 		op := map[string]any{"operationId": "getE", "responses": map[string]any{"204": map[string]any{"description": "d"}}}
 		typeName := ""
@@ -209,7 +267,11 @@ func runC11(r *Report, rng *rand.Rand, thorough bool) {
 			"paths": map[string]any{"/e": map[string]any{"get": op}}, "components": map[string]any{"schemas": comps}})
 		cfg := codegen.Configuration{PackageName: "gen", Generate: codegen.GenerateOptions{Models: true, Client: true, EchoServer: true}}
 		optLabel := "default"
-		switch (d / 6) % 3 {
+		optSel := (d / 6) % 3
+		if d < 3*len(fixed) {
+			optSel = d / len(fixed)
+		}
+		switch optSel {
 		case 1:
 			cfg.Compatibility.AlwaysPrefixEnumValues = true
 			optLabel = "always-prefix"
@@ -217,8 +279,8 @@ func runC11(r *Report, rng *rand.Rand, thorough bool) {
 			cfg.Compatibility.OldEnumConflicts = true
 			optLabel = "old-enum-conflicts"
 		}
-		replay := map[string]any{"spec": json.RawMessage(spec), "position": pos, "option": optLabel, "values": specVals}
-		_, ok2, ok3 := enumGuard(specVals)
+		replay := map[string]any{"spec": json.RawMessage(spec), "position": pos, "option": optLabel, "values": specVals, "names": names, "names_from": varKey}
+		_, ok2, ok3 := enumGuard(names)
 		code, err := generate(spec, cfg)
 		distinct := map[string]bool{}
 		for _, v := range specVals {
@@ -229,12 +291,19 @@ func runC11(r *Report, rng *rand.Rand, thorough bool) {
 		r.Dist["option="+optLabel]++
 		if err != nil {
 			sig := "generate_fails_on_enum/" + pos
+			if base == "string" && nameChainInvalid(names) && strings.Contains(err.Error(), "error formatting Go code") {
+				sig = "enum_name_reduces_to_invalid_identifier"
+			}
 			r.Violate(sig, fmt.Sprintf("%s enum %q (%s): generation failed: %s", pos, specVals, optLabel, trunc(err.Error(), 200)), replay)
 			continue
 		}
 		p, err := parseGo(code)
 		if err != nil {
-			r.Violate("output_unparsable", err.Error(), replay)
+			sig := "output_unparsable"
+			if base == "string" && nameChainInvalid(names) {
+				sig = "enum_name_reduces_to_invalid_identifier"
+			}
+			r.Violate(sig, fmt.Sprintf("%s enum %q (%s): %s", pos, specVals, optLabel, trunc(err.Error(), 200)), replay)
 			continue
 		}
 		// all constants of the file: name -> (type, literal)
@@ -328,6 +397,10 @@ func runC11(r *Report, rng *rand.Rand, thorough bool) {
 			switch {
 			case pos == "response" && len(obs) == 0:
 				sig = "enum_in_inline_response_object_gets_no_constants"
+			case base == "string" && nameChainInvalid(names):
+				sig = "enum_name_reduces_to_invalid_identifier"
+			case base == "string" && optLabel == "old-enum-conflicts" && emptyMeetsEmpty(names, specVals):
+				sig = "old_enum_conflicts_empty_value_forced_to_Empty_collides"
 			case base == "string" && !ok2:
 				sig = "enum_suffix_collision"
 			case base == "string" && !ok3:
@@ -338,13 +411,13 @@ func runC11(r *Report, rng *rand.Rand, thorough bool) {
 			continue
 		}
 		// model tie (default options, string enums, collision-free, top-level naming rule)
-		if base == "string" && optLabel == "default" && ok2 && ok3 && allCoqSafe(specVals...) {
+		if base == "string" && optLabel == "default" && ok2 && ok3 && allCoqSafe(specVals...) && allCoqSafe(names...) {
 			norm, norm2 := map[string]string{}, map[string]string{}
 			okSafe := true
-			for _, n := range specVals {
+			for _, n := range names {
 				norm[n] = codegen.SanitizeGoIdentity(codegen.SchemaNameToTypeName(n))
 			}
-			k2, _, _ := enumGuard(specVals)
+			k2, _, _ := enumGuard(names)
 			for _, k := range k2 {
 				norm2[k] = codegen.SchemaNameToTypeName(k)
 				okSafe = okSafe && allCoqSafe(k, norm2[k])
@@ -353,7 +426,7 @@ func runC11(r *Report, rng *rand.Rand, thorough bool) {
 				okSafe = okSafe && allCoqSafe(p[0], p[1])
 			}
 			if okSafe {
-				ccases.Add(fmt.Sprintf("(%s, %s, %s, %s, %s)", coqTable(norm), coqTable(norm2), gendoc.CoqStrList(specVals), gendoc.CoqStrList(specVals), coqPairs(obs)), replay)
+				ccases.Add(fmt.Sprintf("(%s, %s, %s, %s, %s)", coqTable(norm), coqTable(norm2), gendoc.CoqStrList(names), gendoc.CoqStrList(specVals), coqPairs(obs)), replay)
 			}
 		}
 	}
